@@ -60,8 +60,9 @@ structure RKey where
   sg : Sg
   deriving DecidableEq, Repr
 
-/-- identity of one publication: publishing thread and its per-thread sequence number -/
+/-- identity of one publication: the publishing thread (context, thread id) and its per-thread sequence number -/
 structure Pub where
+  c : Ctx
   tid : Tid
   seq : Nat
   deriving DecidableEq, Repr
@@ -212,6 +213,7 @@ structure Snap where
   k : Key
   p : Pub
   rs : List Rcv
+  taker : Th          -- the thread that took it (the publishing thread itself, or the socket thread of `c`)
   deriving DecidableEq, Repr
 
 structure State where
@@ -296,7 +298,7 @@ def peerCode : Peer → Nat
 def beginProg (c : Ctx) (t : Tid) (seq : Nat) : Op → List MOp
   | .publish ob sg =>
     let k : Key := ⟨.name c, ob, sg⟩
-    [.snapLocal k ⟨t, seq⟩, .snapRemote ob sg ⟨t, seq⟩, .ret (.pub k ⟨t, seq⟩)]
+    [.snapLocal k ⟨c, t, seq⟩, .snapRemote ob sg ⟨c, t, seq⟩, .ret (.pub k ⟨c, t, seq⟩)]
   | .subscribe pc ob sg r =>
     let k : Key := ⟨.name pc, ob, sg⟩
     if pc = c then [.chkObj1 k r, .addLocal k r, .chkObj2 k r, .ret (.sub k r)]
@@ -387,7 +389,7 @@ def microStep (s : State) (th : Th) (choice choice2 : Nat) (op : MOp) (rest : Li
   | .snapLocal k p =>
     let rs := cs.lsubs k
     some ({ (s.setProg th (if rs = [] then rest else .deliver s.snaps.length rs k p :: rest)) with
-              snaps := s.snaps ++ [⟨c, k, p, rs⟩] }, .snap "local" rs)
+              snaps := s.snaps ++ [⟨c, k, p, rs, th⟩] }, .snap "local" rs)
   | .deliver sid rs k p =>
     if choice ∈ rs then
       let rs' := rs.erase choice
